@@ -312,6 +312,11 @@ func (w *Witness) Update(pk *gabikeys.PublicKey, update *Update) error {
 		if newAcc.Time <= ourAcc.Time {
 			return nil
 		}
+		// The issuer's key may sign several accumulators. One with our index but another value is
+		// not a newer signature on ours: taking it over would make the witness invalid.
+		if newAcc.Nu.Cmp(ourAcc.Nu) != 0 {
+			return errors.New("update belongs to another accumulator")
+		}
 		*w.SignedAccumulator = *update.SignedAccumulator
 		w.Updated = time.Unix(newAcc.Time, 0)
 		return nil
